@@ -620,3 +620,31 @@ func ZZC10Overlap() {
 	close(finish)
 	<-applied
 }
+
+// ZZC08ManyTiles: a restart when the persisted hyper cache holds more recovery tiles than one
+// read page of the warm-up (1000): one long run, digests with distinct 20-bit prefixes.
+func ZZC08ManyTiles() {
+	g := zzNewGroup(2)
+	bulks := rt.Param("BULKS", 22)
+	per := rt.Param("PER", 50)
+	for k := 0; k < bulks; k++ {
+		g.commit(byte(0x10+k), per)
+	}
+	st := g.stores[1]
+	rt.Bound("recovery_tiles", len(st.Dump(storage.HyperCacheTable)))
+	rt.Cover(len(st.Dump(storage.HyperCacheTable)) > 1000, "more-tiles-than-one-page")
+	g.nodes[1].Close(true)
+	rt.Assert(!st.ClosedWithOpenReaders, "close-with-every-reader-released")
+	g.reopen(1)
+	g.commit(0xf0, 1)
+	last := len(g.snaps[0]) - 1
+	zzSameSnapshot(g.snaps[0][last], g.snaps[1][last], "after-restart-with-many-tiles")
+	e := rt.Choose("old-event", 3)
+	idx := []int{0, len(g.digs) / 2, len(g.digs) - 2}[e]
+	mp, err := g.nodes[1].QueryDigestMembership(g.digs[idx])
+	rt.Assert(err == nil, "membership-query-ok")
+	if err == nil {
+		snap := &balloon.Snapshot{HistoryDigest: g.snaps[0][last].HistoryDigest, HyperDigest: g.snaps[0][last].HyperDigest, Version: uint64(last)}
+		rt.Assert(mp.DigestVerify(g.digs[idx], snap), "old-event-proof-verifies-after-restart")
+	}
+}
